@@ -112,6 +112,16 @@ class C07(Prop):
                     a, b = sorted(rnd.sample(idxs, 2))
                     ps += [enc(a * dt + o), enc(b * dt + o)]
                 cases.append(Case('sampledvec %s %s %s 3 %s' % (enc(dt), enc(off) if off is not None else '-', rnd.choice(['incl', 'excl']), ' '.join(ps)), 'sampledvec'))
+        # ---- thorough only: EVERY sample index up to 10^4 (the property's quantifier, literally) for the decimal intervals
+        if not quick and scale == 1:
+            for dt in (0.1, 0.001, 1.0 / 3.0, 0.7):
+                for off in (None, 0.3, -0.7):
+                    o = off or 0.0
+                    for i in range(0, 10001):
+                        x = i * dt + o
+                        for p in (x, ulp_next(x, 1), ulp_next(x, -1)):
+                            for r in RULES:
+                                cases.append(Case('sampled %s %s %s %s' % (enc(dt), enc(off) if off is not None else '-', enc(p), r), 'sampled-all'))
         # ---- set and data-frame axes
         for kind in ('set', 'df'):
             for k in range(0, 6):
